@@ -167,30 +167,8 @@ def matrix(tier):
                            "cell": ["el", kind, vk, slot]}
 
 
-SAFE_PREFIX = "u3"
-
-
-def _reprefix(x):
-    """F-C07-2 exclusion: the prefix 'urn' (equal to the scheme of its own namespace URI) is replaced by a neutral one"""
-    if isinstance(x, dict):
-        y = {k: _reprefix(v) for k, v in x.items()}
-        if y.get("prefix") == NSS[2][0] and y.get("ns") == NSS[2][1]:
-            y["prefix"] = SAFE_PREFIX
-        return y
-    if isinstance(x, list):
-        if len(x) == 4 and x[0] == "ns" and x[2] == NSS[2][0]:
-            return ["ns", x[1], SAFE_PREFIX, x[3]]
-        return [_reprefix(v) for v in x]
-    return x
-
-
 def sanitise(case, ctx):
     """post-pass enforcing the quantifier's clauses by construction; returns the recipe actually used"""
-    if not case.get("no_exclude"):
-        # known finding F-C07-2: a declared prefix equal to the URI scheme of names in the document ('urn' for
-        # 'urn:test:') makes the reader re-read full URIs as prefix:local
-        ctx.count("excluded_by_finding:F-C07-2")
-        case = dict(case, ops=_reprefix(case["ops"]))
     ops = []
     kind_of = {}        # identifier uri -> kind
     rel_forms = {}      # (scope, subject uri, kind) -> 'identified' | 'anon'
@@ -303,19 +281,7 @@ def _assoc_conflation(case, item):
     return False
 
 
-def _prefix_is_scheme(case, item):
-    """F-C07-2: a prefix declared on the document is also the scheme of a URI the difference is about"""
-    prefixes = [o[2] for o in case["ops"] if o[0] == "ns"]
-    uris = [o[3] for o in case["ops"] if o[0] == "ns"]
-    bad = [p for p in prefixes if any(u.startswith(p + ":") for u in uris)]
-    if not bad:
-        return False
-    text = repr(item)
-    return any(("'%s:" % p) in text or ('"%s:' % p) in text for p in bad)
-
-
-KNOWN_MATCHERS = {"plain_and_qualified_anonymous_association": _assoc_conflation,
-                  "declared_prefix_equals_uri_scheme": _prefix_is_scheme}
+KNOWN_MATCHERS = {"plain_and_qualified_anonymous_association": _assoc_conflation}
 
 
 def check(case, ctx):
